@@ -61,6 +61,22 @@ equation
   v = {1,2}*y; y = 1; z = 2;
 end M;
 """, {}),
+    # two-dimensional variables (a matrix and a row vector) in front of scalars with parameter-dependent bounds:
+    # rows of the metadata matrix go by numel, not by size1
+    ("""model M
+  parameter Real p = 2; parameter Real q = 3;
+  parameter Real g[2, 3] = {{1, 2, 3}, {4, 5, 6}};
+  parameter Real h[1, 2] = {{1, 2}};
+  parameter Real pd = p + q;
+  Real x(start = p);
+  Real W[2, 3](each min = p);
+  Real R[1, 2](each max = 2*q);
+  Real y(min = -q, max = p + q);
+  Real z(nominal = pd);
+equation
+  der(x) = -x; W = g * x; R = h * x; y = x; z = 2*x;
+end M;
+""", {}),
     # three delays whose durations depend on different parameters: exercises the reuse of `actual_deps`
     ("""model M
   parameter Real p0 = 1; parameter Real p1 = 2; parameter Real p2;
@@ -72,10 +88,10 @@ end M;
     ("""model M
   parameter Real p0 = 1; parameter Real p1 = 2;
   Real x; Real d0; Real d1; Real d2; input Real u(fixed = true);
-  Real w[3](each max = 2*p1, min = {1, 2, 3}); Real a(start = p0); Real b(nominal = p0 + p1);
+  Real w[3](each max = 2*p1, min = {1, 2, 3}); Real a(start = p0); Real b(nominal = p0 + p1); Real yc;
 equation
   der(x) = u - x; d0 = delay(x, p0 + p1); d1 = delay(u, 0.5); d2 = delay(x, p1);
-  w = {1, 2, 3}*x; a = -b; b = x;
+  w = {1, 2, 3}*x; a = -b; b = x; yc = (x + u) + (p0 - x);
 end M;
 """, {"detect_aliases": True, "expand_vectors": True}),
 ]
@@ -321,11 +337,15 @@ def _rows_of(dicts, i):
 
 
 # ---------------------------------------------------------------------------------------------
-SMALL_ARRAY_CONST = "model M\n  Real x;\n  Real w[2];\nequation\n  der(x) = -x;\n  w[1] = 4.0;\n  w[2] = x;\nend M;\n"
+SMALL_ARRAY_CONST = ("model M\n  Real x;\n  Real w[2];\n  Real yc;\n  input Real u;\nequation\n  der(x) = -x;\n  w[1] = 4.0;\n  w[2] = x;\n"
+                     "  yc = (x + u) + (w[2] - x);\nend M;\n")
 
 
 def gen_case(rng, mode="cache"):
-    gm = G.gen_model(rng, want=["vector-parameter"] if rng.random() < 0.15 else None)
+    want = ["vector-parameter"] if rng.random() < 0.15 else []
+    if mode == "codegen":
+        want = want + ["cancellation"]     # compiled code must keep the exact operation order (no -ffast-math)
+    gm = G.gen_model(rng, want=want)
     c = {"name": gm["name"], "text": gm["text"], "features": gm["features"], "opts": G.gen_options(rng),
          "mode": mode, "seed": rng.randrange(1000)}
     r = rng.random()
@@ -389,11 +409,11 @@ def run(ctx):
             ctx.notes.append("generated cases stopped by the time budget after %d of %d" % (i, n_cache))
             break
         check_case(ctx, gen_case(ctx.rng, "cache"), drv)
-        if (i < 2 or i % every == 0) and done_cg < n_codegen:
+        if (i < 3 or i % every == 0) and done_cg < n_codegen:
             done_cg += 1
             c = gen_case(ctx.rng, "codegen")      # always drawn: the case sequence depends on the seed only
-            if done_cg == 1:
-                c.update(text=TARGETED[2][0], opts=dict(TARGETED[2][1]), features=["targeted"])
+            if done_cg == 3:
+                c.update(text=TARGETED[3][0], opts=dict(TARGETED[3][1]), features=["targeted"])
             if done_cg == 2:    # expand_mx changes the compile of this model, and only codegen leaves it to the caller
                 base = {"expand_vectors": True, "eliminate_constant_assignments": True}
                 c.update(text=SMALL_ARRAY_CONST, opts=base, opts2=G.flip(base, "expand_mx"), features=["targeted"])
